@@ -30,7 +30,8 @@ fn case_for(seed: u64, idx: u64, max_n: usize, big_n: usize) -> Case {
             &GenLimits {
                 max_n: n,
                 min_n: n * 3 / 4,
-                max_n_3d: 1500,
+                // (a wide pool meets really large 3D inputs: joint thresholds like "32 cells per worker")
+                max_n_3d: if rayon::current_num_threads() >= 32 { 2600 } else { 1500 },
                 ..Default::default()
             },
         );
